@@ -149,7 +149,9 @@ def run(chk):
             s, k = history_step(rng, rng.choice(pool))
             steps.append(s)
             kinds.append(k)
-        probe_prog = 'src=%s I B?a C Q K' % hexs(probe)
+        # half of the probes are decoded block by block with the collectable amount observed after each step: what the
+        # decoder retains depends on the window it believes the frame has
+        probe_prog = ('src=%s I B?a C Q K' if rng.below(2) else 'src=%s I B?b1 Q B?b1 Q B?b2 Q R64 Q B?a Q C K') % hexs(probe)
         # the fresh decoder gets the same dictionaries registered
         line = '%s%s %s new %s%s' % (pre, ' '.join(steps), probe_prog, pre, probe_prog)
         cases.append((pkind, kinds))
